@@ -41,8 +41,11 @@ func genGrid(t *rapid.T) Case {
 }
 
 func gridProg(t *rapid.T) *mpcl.Prog {
-	if gen.Uniform(t, 5, "levels") < 3 {
+	switch lv := gen.Uniform(t, 7, "levels"); {
+	case lv < 3:
 		return gridProg2(t)
+	case lv < 5:
+		return gridProg3(t)
 	}
 	op := gridOps[gen.Uniform(t, len(gridOps), "op")]
 	ws := gridWidthsQuick
@@ -282,4 +285,111 @@ func gridProg2(t *rapid.T) *mpcl.Prog {
 	return &mpcl.Prog{Funcs: []*mpcl.Func{{Name: "main",
 		Params:  []mpcl.Param{{Name: "a", T: T}, {Name: "b", T: T}},
 		Results: []mpcl.Type{R}, Body: body}}}
+}
+
+
+var elemOps = []string{"+", "-", "*", "/", "%", "&", "|", "^", "&^", "==", "!=", "<", "<=", ">", ">="}
+
+// gridProg3 builds an aggregate-element program: one operator applied to one
+// member of an array or struct parameter and an operand of another width (an
+// untyped literal - 32 bits inside the compiler - or a widened / same-typed
+// scalar), after which EVERY member of the aggregate is returned as well:
+//
+//	main(a [n]T, b T) (R, T, ..., T) { x := a[i] OP 3; return x, a[0], ..., a[n-1] }
+//
+// A builder that extends, pads or truncates its operand slices in place is
+// harmless for a scalar operand and damages the neighbours of an aggregate
+// member (seeded change C09-seed4-c09-3, which the general generator reaches
+// only in the thorough tier).
+func gridProg3(t *rapid.T) *mpcl.Prog {
+	op := elemOps[gen.Uniform(t, len(elemOps), "op")]
+	var w int
+	switch gen.Uniform(t, 4, "wclass") {
+	case 0:
+		w = []int{8, 16, 32, 64}[gen.Uniform(t, 4, "w")]
+	case 1:
+		w = rapid.IntRange(2, 31).Draw(t, "w")
+	case 2:
+		w = rapid.IntRange(2, 16).Draw(t, "w")
+	default:
+		w = []int{31, 33, 40, 63, 65}[gen.Uniform(t, 5, "w")]
+	}
+	if (op == "/" || op == "%") && w > 33 {
+		w = 33
+	}
+	T := mpcl.Uint(w)
+	if rapid.Bool().Draw(t, "signed") {
+		T = mpcl.Int(w)
+	}
+	n := rapid.IntRange(2, 5).Draw(t, "members")
+	i := gen.Uniform(t, n, "member")
+	p := &mpcl.Prog{}
+	var AT mpcl.Type
+	member := func(k int) *mpcl.Expr {
+		return &mpcl.Expr{Op: mpcl.EIndex, T: T, Idx: k, A: []*mpcl.Expr{{Op: mpcl.EVar, T: AT, Name: "a"}}}
+	}
+	if rapid.Bool().Draw(t, "struct") {
+		sd := mpcl.StructDef{Name: "S0"}
+		for k := 0; k < n; k++ {
+			sd.Fields = append(sd.Fields, mpcl.Field{Name: "F" + itoa(k), T: T})
+		}
+		p.Structs = []mpcl.StructDef{sd}
+		AT = mpcl.Type{K: mpcl.KStruct, S: "S0"}
+		member = func(k int) *mpcl.Expr {
+			return &mpcl.Expr{Op: mpcl.EField, T: T, Name: "F" + itoa(k), A: []*mpcl.Expr{{Op: mpcl.EVar, T: AT, Name: "a"}}}
+		}
+	} else {
+		AT = mpcl.Array(n, T)
+	}
+	b := &mpcl.Expr{Op: mpcl.EVar, T: T, Name: "b"}
+	// The other operand.
+	var rhs *mpcl.Expr
+	switch k := gen.Uniform(t, 5, "rhs"); {
+	case k < 3 || op == "/" || op == "%":
+		// untyped literal that fits T as a non-negative value
+		maxBits := w
+		if T.Signed() {
+			maxBits = w - 1
+		}
+		if maxBits > 31 {
+			maxBits = 31
+		}
+		v := rapid.IntRange(1, 1<<uint(maxBits)-1).Draw(t, "lit")
+		if rapid.Bool().Draw(t, "smalllit") {
+			v = 1 + v%7
+			if v > 1<<uint(maxBits)-1 {
+				v = 1
+			}
+		}
+		rhs = &mpcl.Expr{Op: mpcl.ELit, T: T, Val: itoa(v)}
+	case k == 3:
+		rhs = b
+	default:
+		rhs = member((i + 1) % n)
+	}
+	l, r := member(i), rhs
+	if op != "/" && op != "%" && rapid.Bool().Draw(t, "swap") {
+		l, r = rhs, member(i)
+	}
+	R := T
+	switch op {
+	case "==", "!=", "<", "<=", ">", ">=":
+		R = mpcl.Bool()
+	}
+	e := &mpcl.Expr{Op: mpcl.EBin, T: R, Name: op, A: []*mpcl.Expr{l, r}}
+	body := []*mpcl.Stmt{{K: mpcl.SDefine, Name: "x", E: e}}
+	rets := []*mpcl.Expr{{Op: mpcl.EVar, T: R, Name: "x"}}
+	results := []mpcl.Type{R}
+	for k := 0; k < n; k++ {
+		rets = append(rets, member(k))
+		results = append(results, T)
+	}
+	// keep b in use
+	rets = append(rets, b)
+	results = append(results, T)
+	body = append(body, &mpcl.Stmt{K: mpcl.SReturn, Es: rets})
+	p.Funcs = []*mpcl.Func{{Name: "main",
+		Params:  []mpcl.Param{{Name: "a", T: AT}, {Name: "b", T: T}},
+		Results: results, Body: body}}
+	return p
 }
